@@ -45,9 +45,28 @@ Theorem C03_descendant_hash_refuted :
   apply_block forged_desc_ctx forged_desc_blk = V_DescendantVerify.
 Proof. exact descendant_hash_refuted. Qed.
 
+(* "a receive references a ... SEND": fromHash() only looks the referenced block up and compares its ToAddress, it never
+   asks whether that block is a send block.  On a ledger of accepted blocks every non-send block has a zero ToAddress
+   (first theorem; [ledger_wf] states it for the referenced block), so FROM THE ENFORCEMENT HEIGHT ON the addressee rule
+   implies that the referenced block is a send (second theorem: the property's clause under the hypothesis that excludes
+   exactly the legacy regime).  BELOW the enforcement height a user receive that references a confirmed non-send block
+   is accepted (third theorem; known finding c03-legacy-receive-references-non-send-block, reproduced on the real node
+   by the harness in every run). *)
+Theorem C03_accepted_receive_zero_to : forall c b,
+  accept c b = true -> is_send_t (v_type b) = false -> v_to b = 0.
+Proof. exact accepted_receive_zero_to. Qed.
+Theorem C03_receive_references_send_partial : forall c b,
+  accept c b = true -> is_send_t (v_type b) = false -> ledger_wf c ->
+  c_enf_height c <= c_frontier_height c -> v_addr b <> 0 -> c_from_is_send c = true.
+Proof. exact receive_references_send_partial. Qed.
+Theorem C03_legacy_receive_of_non_send_refuted : exists c b,
+  accept c b = true /\ v_type b = T_USER_RECEIVE /\ ledger_wf c /\ c_from_is_send c = false /\
+  c_frontier_height c < c_enf_height c.
+Proof. exists legacy_nonsend_ctx, legacy_nonsend_blk. exact legacy_receive_of_non_send_refuted. Qed.
+
 (* non-vacuity: the model accepts a user send, a user receive and a contract receive; refuses the other two types *)
 Definition ex_ctx : vctx :=
-  mkC 100 true true (Some 5) true (Some (2001, 5)) (Some 7) (Some 101) 8 false (Some 3001) 9 0
+  mkC 100 true true (Some 5) true (Some (2001, 5)) (Some 7) (Some 101) true 8 false (Some 3001) 9 0
       1000000000000 0 0 (Some 21000) true 500 (Some (4001, 4002)).
 Definition ex_send : vblk :=
   mkV 1 100 T_USER_SEND 4000 4000 2001 6 2500 9 101 102 (Some 300) 1 0 [] 21000 0 false 0 32 64 true 101.
@@ -57,7 +76,7 @@ Definition ex_crecv : vblk :=
   mkV 1 100 T_CONTRACT_RECEIVE 4001 4001 2001 6 2500 8 2 0 (Some 0) 0 3001
       [mkD 5001 5001 1 100 T_CONTRACT_SEND true 6 2001 2500 8 (Some 5) 1 101 0 0] 0 0 false 4002 0 0 false 0.
 Definition ex_ctx_c : vctx :=
-  mkC 100 true true (Some 5) true (Some (2001, 5)) (Some 7) (Some 2) 8 false (Some 3001) 9 0
+  mkC 100 true true (Some 5) true (Some (2001, 5)) (Some 7) (Some 2) true 8 false (Some 3001) 9 0
       0 0 0 None true 0 (Some (4001, 4002)).
 Example C03_accept_examples :
   accept ex_ctx ex_send = true /\ accept ex_ctx ex_recv = true /\ accept ex_ctx_c ex_crecv = true /\
